@@ -299,6 +299,32 @@ def main_c06(tier):
                     nh.append(e)
             hsts.append(nh)
         run_extra(ck, bdir, msys, hsts, "C06/ovni.mark-%s(ACT)" % name)
+    # three and four threads running on the virtual CPU at once (it may be oversubscribed): no thread's
+    # value on its row while more than one runs, the remaining thread's value when the others leave
+    s4 = sys2({"O", "K"})
+    s4["threads"] = [{"tid": 101 + k, "pid": 1001 if k < 2 else 1002, "app": 1 if k < 2 else 2, "loom": 1, "rank": -1}
+                     for k in range(4)]
+    s4["marks"] = [{"type": 2, "stack": False}]
+    many = []
+    for n in (3, 4):
+        for leave in (list(range(1, n + 1)), list(range(n, 0, -1)), [2, 1] + list(range(3, n + 1))):
+            h = []
+            for t in range(1, n + 1):
+                h += [ev(t, "OHx", [-1, 100 + t, 7]), ev(t, "OM=", [10 * t, 2]), ev(t, "OF[")]
+            for t in leave:
+                h += [ev(t, "OF]"), ev(t, "OHe")]
+            many.append(h)
+            # ... and the same with the threads pausing instead of ending first
+            h2 = [e for e in h if e["m"] not in ("OF]", "OHe")]
+            for t in leave:
+                h2 += [ev(t, "OHp")]
+            for t in leave:
+                h2 += [ev(t, "OHr"), ev(t, "OF]"), ev(t, "OHe")]
+            many.append(h2)
+    for h in many:
+        for t in range(len({e["th"] for e in h}) + 1, 5):      # threads not used in this history: run and end
+            h += [ev(t, "OHx", [0, 100 + t, 7]), ev(t, "OHe")]
+    run_extra(ck, bdir, s4, many, "C06/many-running-threads-on-the-virtual-cpu")
     ck.phase("per_channel")
     # recorded executions: the traces of the repository's own emu-* tests, validated event by event
     from checks import suite_traces
